@@ -2,4 +2,12 @@ SPEC_PART = dict(
     props_file="C11_tdigest",
     legs=[dict(family="tdigest", focus="codec", oracles=["twin_ok", "codec_ok", "tie_ok", "c15_ok"], profiles=["debug", "release"],
                mask=[0, 1, 7, 8, 9, 10, 14, 15, 17, 19, 21], n_quick=40, n_thorough=500, panic_is_violation=True)],
-    trusted=[], assumptions=[], covers="tdigest: TBD")
+    trusted=["tdigest: the byte-level codec model (Model/TDigestCodec.v) is written by hand from TDigestMut::serialize/deserialize; it is "
+             "tied on every image the crate emits (reader accepts it, writer re-emits it byte for byte) and by the twin oracle"],
+    assumptions=["tdigest: states reached through update/merge/freeze/serialize histories (an image whose single unit centroid does "
+                 "not sit on min = max -- the inconsistent class of known finding tdigest-D17 -- does not survive the single-value form)"],
+    covers="tdigest: deserialize(serialize(s)) = s for every serializable state (Props/C11_tdigest.v, byte-level model, floats as bit "
+           "patterns), hence byte-identical re-serialization; tie: on every image the crate emits along random histories (k 10..500, all "
+           "stream shapes, merges, freeze/unfreeze) the modelled reader accepts it and the modelled writer re-emits it byte for byte, and "
+           "after fork = deserialize(serialize(src)) every further update / merge / query / dump / image applied to both copies gives "
+           "identical observations (twin oracle), in debug and release")
